@@ -13,10 +13,12 @@ CONSTANTS
   BugPtr = FALSE
   BugWait = FALSE
   BugListen = FALSE
+  Mut = ""
 VIEW View
 SYMMETRY Symm
 INVARIANT QuiescentAnnounced
 INVARIANT DeliveryInAnnouncedEpoch
+INVARIANT RequestsNamedAndCurrent
 INVARIANT NoSilentDropAtQuiescence
 INVARIANT OneActiveSession
 INVARIANT NoLeftovers
